@@ -36,7 +36,7 @@ class Spec:
         return copy.deepcopy(self)
 
     def units(self):
-        u = [self.name.lower()]
+        u = [self.name.lower()] if self.kind != "incbase" else []
         if self.extra_unit:
             u.append(self.extra_unit.lower())
         return u
@@ -79,6 +79,16 @@ class Spec:
                 L.append("  o_%s%%" % u)
             L.append("  print *, %d" % self.body)
             L.append("end program %s" % self.name)
+        if self.kind == "far":
+            L = ["module %s" % self.name, "  use m_ext", "  implicit none", "  type(t_m_ext) :: far_obj", "  type(t_m_base) :: far_base", "contains",
+                 "  subroutine far_work_%d()" % self.body, "    far_obj%c_one_m_base = 1", "    far_obj%c_one_m_ext = 2", "    far_obj%", "    far_base%",
+                 "    call p_one_m_base(far_base)", "  end subroutine far_work_%d" % self.body, "end module %s" % self.name]
+        if self.kind == "incbase":
+            L = ["type :: inc_base_t"] + ["  integer :: %s_inc" % c for c in self.comps] + ["end type inc_base_t"]
+        if self.kind == "shapes":
+            L = ["module %s" % self.name, "  implicit none", "  include 'g_incbase.f90'", "  type, extends(inc_base_t) :: circ_t"] + \
+                ["    integer :: %s_circ" % c for c in self.comps] + ["  end type circ_t", "contains", "  subroutine circ_work(c)", "    type(circ_t), intent(inout) :: c",
+                 "    c%%c_one_inc = %d" % self.body, "    c%", "  end subroutine circ_work", "end module %s" % self.name]
         if self.extra_unit:
             L += ["module %s" % self.extra_unit, "  integer :: from_extra_%s" % self.name, "end module %s" % self.extra_unit]
         return "\n".join(L) + "\n"
@@ -86,6 +96,16 @@ class Spec:
 
 def mutate(spec, rng, all_specs):
     s = spec.clone()
+    if s.kind in ("far", "incbase", "shapes"):
+        k2 = rng.choice(["body", "comp+", "comp-"])
+        if k2 == "comp+" and s.kind != "far":
+            s.comps.append("c_%s" % rng.choice(NAMES))
+        elif k2 == "comp-" and len(s.comps) > 1:
+            s.comps.pop()
+        else:
+            s.body += 1
+        s.comps = list(dict.fromkeys(s.comps))
+        return s
     k = rng.choice(["comp+", "comp-", "comp~", "var+", "proc+", "proc~", "body", "rename", "collide", "extra", "uncollide"])
     if k == "comp+":
         s.comps.append("c_%s" % rng.choice(NAMES))
@@ -125,11 +145,18 @@ class World:
         self.disk = {"a_base.f90": base, "b_ext.f90": ext, "c_main.f90": main}
         if rng.random() < 0.5:
             self.disk["d_side.f90"] = side
+        if rng.random() < 0.6:
+            self.disk["f_far.f90"] = Spec("far", "m_far")
+        if rng.random() < 0.5:
+            self.disk["g_incbase.f90"] = Spec("incbase", "incbase")
+            self.disk["h_shapes.f90"] = Spec("shapes", "m_shapes")
         for n, sp in self.disk.items():
             self.write(n, sp)
         self.buf = {}          # open documents: name -> Spec of the buffer
         self.known = set(self.disk)     # files the server knows
         self.srv, self.conn = impl.make_server(self.root, extra=["--nthreads", "1"])
+        # the user looks around first: queries fill the caches held inside syntax-tree nodes
+        battery(self.srv, self.conn, self.root, sorted(self.disk))
         self.names = {}        # unit name -> nat
         self.texts = {}        # text -> nat (body id)
         self.log = []
@@ -150,7 +177,7 @@ class World:
         return self.names.setdefault(u, len(self.names) + 10)
 
     def pid(self, n):
-        return sorted(set(list(self.disk) + list(self.known) + ["e_new.f90", "f_new.f90"])).index(n) if False else {"a_base.f90": 1, "b_ext.f90": 2, "c_main.f90": 3, "d_side.f90": 4, "e_new.f90": 5, "f_new.f90": 6}[n]
+        return sorted(set(list(self.disk) + list(self.known) + ["e_new.f90", "f_new.f90"])).index(n) if False else {"a_base.f90": 1, "b_ext.f90": 2, "c_main.f90": 3, "d_side.f90": 4, "e_new.f90": 5, "f_new.f90": 6, "f_far.f90": 7, "g_incbase.f90": 8, "h_shapes.f90": 9}[n]
 
     def tx(self, sp):
         t = sp.text().rstrip("\n")
@@ -160,7 +187,12 @@ class World:
     # --- events
     def event(self):
         r = self.rng
-        k = r.choice(["open", "change", "change", "change", "save", "save", "close", "write", "create", "delete"])
+        k = r.choice(["open", "change", "change", "change", "save", "save", "close", "write", "create", "delete", "query", "query"])
+        if k == "query":
+            # queries in between fill the caches held inside syntax-tree nodes (types of variables, inherited members)
+            n = r.choice(sorted(self.known & set(self.disk)) or sorted(self.disk))
+            battery(self.srv, self.conn, self.root, [n])
+            return [], ("query", n)
         if k == "open":
             n = r.choice(sorted(self.disk))
             impl.did_open(self.srv, self.path(n))
@@ -340,6 +372,9 @@ def run_histories(ctx, n, length):
                 sig = "C10:history"
                 if w.collided:
                     sig = "C10:name-collision"
+                elif diff[0].startswith("g_incbase.f90"):
+                    # what the included file itself reports (its entities were re-parented into the including module)
+                    sig = "C10:include-reparenting"
                 ctx.report(sig, "after saving everything the long-lived server answers differently from a fresh server: %s" % diff[0],
                            {"kind": "counterexample", "input": {"history": log, "final_files": texts, "events": evs}, "implementation": diff[1], "oracle": diff[2]})
         finally:
@@ -349,6 +384,81 @@ def run_histories(ctx, n, length):
     for b in bad[:3]:
         ctx.report("C10:model-impl-mismatch", "workspace buffers / object tree differ from C10.Model after a history", {"kind": "broken-correspondence", "input": meta[b],
                    "correspondence": "FV.C10.Model.step vs serve_onSave/onChange/onClose + update_workspace_file"}, found_input=False)
+
+
+class ForcedRng:
+    """random.Random wrapper that makes every optional file of the World present"""
+
+    def __init__(self, rng):
+        self._r = rng
+
+    def random(self):
+        return 0.0
+
+    def __getattr__(self, k):
+        return getattr(self._r, k)
+
+
+DIRECTED = [
+    ("component added to the base type, saved", [("open", "a_base.f90"), ("edit", "a_base.f90", "comp+"), ("save", "a_base.f90")]),
+    ("component removed from the extended type, saved", [("open", "b_ext.f90"), ("edit", "b_ext.f90", "comp+"), ("save", "b_ext.f90"), ("edit", "b_ext.f90", "comp-"), ("save", "b_ext.f90")]),
+    ("base module renamed, saved", [("open", "a_base.f90"), ("edit", "a_base.f90", "rename"), ("save", "a_base.f90")]),
+    ("including file edited, saved", [("open", "h_shapes.f90"), ("edit", "h_shapes.f90", "body"), ("save", "h_shapes.f90")]),
+    ("included file gets a component, saved", [("open", "g_incbase.f90"), ("edit", "g_incbase.f90", "comp+"), ("save", "g_incbase.f90")]),
+    ("base file rewritten behind the server, then opened", [("write", "a_base.f90", "comp+"), ("open", "a_base.f90")]),
+    ("procedure added to the base module, saved twice", [("open", "a_base.f90"), ("edit", "a_base.f90", "proc+"), ("save", "a_base.f90"), ("save", "a_base.f90")]),
+]
+
+
+def apply_edit(sp, kind):
+    s = sp.clone()
+    if kind == "comp+":
+        s.comps.append("c_zz%d" % len(s.comps))
+    elif kind == "comp-" and len(s.comps) > 1:
+        s.comps.pop()
+    elif kind == "rename":
+        s.name = s.name + "_renamed"
+    elif kind == "proc+":
+        s.procs.append("p_zz%d" % len(s.procs))
+    else:
+        s.body += 1
+    return s
+
+
+def run_directed(ctx):
+    """scripted histories that touch each kind of cross-file state once, on a workspace with every optional file present"""
+    for what, script in DIRECTED:
+        w = World(ForcedRng(ctx.rng))
+        try:
+            for step in script:
+                n = step[1]
+                if step[0] == "open":
+                    impl.did_open(w.srv, w.path(n)); w.buf[n] = w.disk[n].clone()
+                elif step[0] == "edit":
+                    sp = apply_edit(w.buf[n], step[2])
+                    f = w.srv.workspace.get(w.path(n))
+                    impl.did_change(w.srv, w.path(n), [{"range": {"start": {"line": 0, "character": 0}, "end": {"line": len(f.contents_split) + 1, "character": 0}}, "text": sp.text()}])
+                    w.buf[n] = sp
+                elif step[0] == "save":
+                    w.disk[n] = w.buf[n].clone(); w.write(n, w.disk[n]); impl.did_save(w.srv, w.path(n))
+                elif step[0] == "write":
+                    w.disk[n] = apply_edit(w.disk[n], step[2]); w.write(n, w.disk[n])
+            w.quiesce()
+            names = sorted(w.disk)
+            got = battery(w.srv, w.conn, w.root, names)
+            srv2, conn2 = impl.make_server(w.root, extra=["--nthreads", "1"])
+            for nm in names:
+                impl.did_open(srv2, w.path(nm))
+            want = battery(srv2, conn2, w.root, names)
+            ctx.count(("directed", what), True)
+            if got != want:
+                diff = first_diff(got, want)
+                sig = "C10:include-reparenting" if diff[0].startswith("g_incbase.f90") else "C10:history"
+                ctx.report(sig, "%s: the long-lived server answers differently from a fresh server: %s" % (what, diff[0]),
+                           {"kind": "counterexample", "input": {"history": [list(x) for x in script], "final_files": {nm: w.disk[nm].text() for nm in names}},
+                            "implementation": diff[1], "oracle": diff[2]})
+        finally:
+            w.close()
 
 
 def first_diff(a, b):
@@ -431,6 +541,7 @@ def run(ctx):
     ctx.proof_obligations(search=lambda: search_failing(ctx))
     q = ctx.quick()
     witness_collision(ctx)
+    run_directed(ctx)
     run_histories(ctx, 60 if q else 1000, 14 if q else 30)
 
 
